@@ -11,6 +11,7 @@ CONSTANTS
   MaxReorgs = 100000
   MaxIdx = 100000
   MaxFails = 100000
+  InitDuties = FALSE
   Weaken = "none"
 INVARIANT AtMostOnce
 INVARIANT AtItsSlot
